@@ -92,17 +92,29 @@ class U:
         return SSeq.fresh(name, nonempty_elems, kind)
 
     def obj(self, clsname, fields_=None, methods_=None, const=(), factories=None, real_cls=None, shared=True,
-            init=None):
+            init=None, real=None):
+        """real=(module, class name): methods / properties the sidecar does not name are taken from the real class
+        (instrumented real text), so a helper split off by a refactoring is followed instead of faulting"""
         o = SObj(clsname, fields_, methods_, const)
+        if real is not None:
+            object.__setattr__(o, "_o_real", tuple(real))
         if init is not None:
             # discover fields the sidecar does not mention by running the REAL __init__ (instrumented) on an
             # empty object: such a field gets an arbitrary value of its initial type (no invariant is known
             # for it), so code that starts to depend on new state is explored for every value of that state
             mod, qn, a, kw = init
             tmp = SObj(clsname, dict(fields_ or {}), methods_, ())  # class-level attributes the sidecar names are visible
+            if real is not None:
+                object.__setattr__(tmp, "_o_real", tuple(real))
             f0 = self.load(mod, qn)
-            r0 = self.call(f0, tmp, *a, **kw)
-            if r0.ok:
+            try:
+                r0 = self.call(f0, tmp, *a, **kw)
+            except EngineError as e:
+                # the real constructor needs more of the class than the sidecar models: fields assigned up to
+                # that point are still discovered
+                self.c.notes.append(f"field discovery through {qn} stopped early: {type(e).__name__}: {e}")
+                r0 = Outcome(value=None)
+            if r0.ok or True:
                 for k, v in fields(tmp).items():
                     if k in fields(o):
                         continue
